@@ -9,6 +9,8 @@
 (*   (-a, a+b, a-b, a^b, the documented identities, g(a) and both sides of         *)
 (*   "arithmetic commutes with symmetry"); the pair-state algebra of Geom.tla      *)
 (*   decides which evaluations must be defined and what their value is.            *)
+(* c.lemma = 1 additionally re-proves the model-level lemmas on that pool (the    *)
+(*   laws hold on the relation induced by the values; the algebra's identities).   *)
 EXTENDS Geom, EqLaws, Json, IOUtils
 
 Cases == JsonDeserialize(IOEnv.CASE_FILE)
@@ -20,7 +22,7 @@ EqFails(c) ==
   {<<l[m][1], CHOOSE p \in l[m][2] : TRUE>> : m \in {m2 \in DOMAIN l : l[m2][2] # {}}}
   \cup (IF c.setsize < 0 \/ c.setsize = Cardinality({c.val[i] : i \in 1..c.n}) THEN {}
         ELSE {<<"a set keeps exactly one instance per value", <<1, 1>>>>})
-  \cup (IF LawsHoldOnInduced(c.val, c.n) THEN {} ELSE {<<"MODEL: laws on the induced relation", <<1, 1>>>>})
+  \cup (IF c.lemma = 0 \/ LawsHoldOnInduced(c.val, c.n) THEN {} ELSE {<<"MODEL: laws on the induced relation", <<1, 1>>>>})
 
 ---------------------------------------------------------------------------
 \* pair-state evaluations: e = [name, expr, a, b, g, r = [ok, f, dx], flags]
@@ -84,7 +86,7 @@ PsFails(c) ==
   ELSE {<<c.evals[n].name, <<c.evals[n].a, c.evals[n].b>>>> : n \in {m \in DOMAIN c.evals : ~EvalOK(c, c.evals[m])}}
        \cup {<<"separation dx of a constructed pair state", <<n, n>>>> :
                  n \in {m \in DOMAIN c.ps : c.dx[m] # PSdx(c.w, c.c, Mk(c.ps[m]))}}
-       \cup (IF PoolLemmas(c) THEN {} ELSE {<<"MODEL: pair-state algebra lemmas", <<1, 1>>>>})
+       \cup (IF c.lemma = 0 \/ PoolLemmas(c) THEN {} ELSE {<<"MODEL: pair-state algebra lemmas", <<1, 1>>>>})
 
 Fails(c) == IF c.kind = "eq" THEN EqFails(c) ELSE PsFails(c)
 \* one witness per clause name
